@@ -35,7 +35,7 @@ FILES = {
  'fidget-core/src/types/interval.rs': ['C03', 'C04', 'C11', 'C20'],
  'fidget-core/src/types/grad.rs': ['C05'],
  'fidget-core/src/types/float.rs': ['C01', 'C04', 'C20'],
- 'fidget-core/src/context/mod.rs': ['C12', 'C13', 'C05'],
+ 'fidget-core/src/context/mod.rs': ['C12', 'C13', 'C05', 'C01'],
  'fidget-core/src/context/tree.rs': ['C12', 'C13', 'C17'],
  'fidget-core/src/context/op.rs': ['C12', 'C01'],
  'fidget-core/src/context/indexed.rs': ['C12'],
